@@ -192,6 +192,7 @@ pub fn matrices(rec: &mut Recorder, rng: &mut Rng, thorough: bool) {
         rec.put(&format!("mat spec {h} {w} {opstr}"), &show(&rd));
         rec.put(&format!("mat dense {h} {w} {opstr}"), &show(&rd));
         rec.put(&format!("mat spec {h} {w} {opstr}"), &show(&rs));
+        rec.put(&format!("mat sparse{hint} {h} {w} {opstr}"), &show(&rs));
         rec.count("sequences");
         rec.add("ops", ops.len() as u64);
         if hint == 0 && opstr.contains(";fr:") { rec.count("freeze_from_zero_dense_columns"); }
